@@ -1,9 +1,11 @@
 (** C01 glue ("mask_id", DESIGN §6 C01): on a file none of whose lines carries a pint control comment the masking
     ContentReader (Model/Reader.v, byte-exact model of internal/parser/read.go, tied to the source by C10's
-    correspondence) hands the yaml decoder exactly the file's bytes, records the file's lines, and collects no comment
-    and no diagnostic.  Hence pint's yaml.v3 and Prometheus' yaml.v3 decode the same bytes: a yaml syntax error is the
-    same error on both sides and the node forest of Model/Parser.v is the forest rulefmt.Parse sees.
-    The harness re-checks the identity on every case with the real reader (Run/C01.v: c_reader_id). *)
+    correspondence) masks nothing: its output is exactly the file's bytes, it records the file's lines and collects no comment
+    and no diagnostic.  Since fix 670b316 the bytes handed to yaml.v3 are that output with every CR LF written as LF
+    ([r_yaml], [mask_id_yaml]); yaml treats CR LF and LF as the same single line break, so pint's yaml.v3 and Prometheus'
+    yaml.v3 decode the same document: that last step is not proved but re-checked on every case with the real reader and the
+    real decoder (Run/C01.v: c_reader_id = the two forests are equal).  One exception is recorded by the harness: CR CR LF is
+    two line breaks for yaml and one after the reader dropped a CR. *)
 From Coq Require Import List String Ascii NArith ZArith Bool Arith Lia.
 From PintV Require Import Common.Bytes Model.CommentsUnicode Model.Comments Model.Reader.
 Import ListNotations.
@@ -73,6 +75,11 @@ Section Mask.
     intros Hf. cbv zeta. unfold reader_impl. rewrite (reader_chunks_plain (chunks f) rd_init eq_refl Hf).
     cbn [r_out r_lines r_comments r_diags r_lineno rd_init]. rewrite concat_chunks. repeat split.
   Qed.
+
+  (** what the yaml decoder is given since fix 670b316 ([r_yaml] = the masked bytes with every CR LF turned into LF): the
+      file with its CR LF line ends written as LF — and the file itself when it has no CR directly before an LF. *)
+  Corollary mask_id_yaml f : comment_free f -> r_yaml (reader_impl tp f) = crlf_to_lf f.
+  Proof. intros Hf. unfold r_yaml. destruct (mask_id f Hf) as (E & _). cbv zeta in E. now rewrite E. Qed.
 
   (** ---- a syntactic sufficient condition: no '#' rune anywhere ---- *)
   Definition hash_free (s : string) : Prop :=
